@@ -179,6 +179,63 @@ def _same_term(a, b):
     return abs(float(a) - float(b)) < 1e-6
 
 
+def scen_wallclock_row(cfg):
+    """the wall-clock branch of the real push_step (measured end time = now(); the step may move its own start time forward by returning another
+    step_state.ts): the recorded row is internally consistent and equals what the step used -- ts_start is the (possibly adjusted) time the step
+    reports, delay == ts_end - ts_start, phase_overwrite is the adjustment, and consumers are told ts_end"""
+    from rex import base
+    from rex.constants import Clock
+    from vlib import asyncsym
+
+    def scenario(V):
+        rec = asyncsym.Recorder()
+        node = asyncsym.mk_node(V, rec, "n", 10, clock=Clock.WALL_CLOCK)
+        out = asyncsym.mk_node(V, rec, "consumer", 10)
+        oc = asyncsym.mk_conn(V, rec, node, out, blocking=False)
+        t0 = V.grid("t0", lo=0, hi=5)
+        adj = V.grid("adj", lo=0, hi=1) if cfg["adjust"] else 0
+        tnow = V.grid("tnow", lo=0, hi=10)
+        V.assume(tnow > t0 + adj)  # documented contract: the adjusted start does not exceed the current time (else push_step raises)
+        node.now = lambda: tnow
+        node.throttle = lambda ts: None
+        orig_step = node.node.step
+
+        def step(ss):
+            new_ss, o = orig_step(ss)
+            return (new_ss.replace(ts=new_ss.ts + adj) if cfg["adjust"] else new_ss), o
+
+        node.node.step = step
+        r0 = base.AsyncStepRecord(eps=0, seq=0, ts_scheduled=t0, ts_max=0.0, ts_start=t0, ts_end_prev=0.0, ts_end=None, phase=t0, phase_scheduled=0.0, phase_inputs=0.0,
+                                  phase_last=0.0, sent=None, delay=None, phase_overwrite=0.0, rng=None, inputs=None, state=None, output=None)
+        node.q_ts_start.append((0, t0, None, r0))
+        node.push_step()
+        if len(node._record_steps) != 1:
+            return {"the step is recorded": False}
+        r = node._record_steps[0]
+        told = [a for t_, n_, a in rec.tasks if n_ == "push_input" and t_ is oc]
+        from props.c03 import _allv, _close
+        return {
+            "wall clock: recorded ts_start is the start time the step reports (its own adjustment included), phase_overwrite the adjustment": _allv(V, [_close(V, r.ts_start, t0 + adj), _close(V, r.phase_overwrite, adj)]),
+            "wall clock: recorded delay == recorded ts_end - recorded ts_start, ts_end == now() at the end of the step": _allv(V, [_close(V, r.delay, r.ts_end - r.ts_start), _close(V, r.ts_end, tnow)]),
+            "wall clock: consumers are told ts_end with the step's sequence number": len(told) == 1 and bool(_close(V, told[0][1].ts, tnow)) and told[0][1].seq == 0 and bool(_close(V, r.sent.ts, tnow)),
+            "twin:the step moved its start": (adj > 0) if cfg["adjust"] else True,
+        }
+
+    return scenario
+
+
+def worker_wallclock(cfg, tier):
+    import rex.asynchronous as A
+    from props.c03 import _to_obs
+    from vlib import pysym
+
+    res, stats = pysym.run_scenario(scen_wallclock_row(cfg), [A], extra_patch={"rex.asynchronous": {"onp": pysym.FakeNumpy(A.onp)}}, timeout_ms=30000)
+    obs, stats = _to_obs(res, stats, cfg, "wallclock-row")
+    if obs:
+        obs[0].detail = {"stats": stats}
+    return obs
+
+
 def _replay_instance_rows(inst, eps):
     """real run with the logging probe node: is some executed step missing from the record?"""
     import jax
@@ -482,7 +539,7 @@ def run(rep):
     rep.bounds = dict(record_setting_combinations=len({c["flags"] for c in cfgs}), instances=len({str(c["inst"]) for c in cfgs}), runs=1)
     rep.assumptions = ["0 <= step <= max_steps-1 (the partitions run()/rollout() execute; the schedule's last row is executed only by the gym-style reset() + max_steps x step() drive, which the instance-level "
                        "obligation covers; at step == max_steps run() files the supervisor's output under a clipped row -- DESIGN 12.3, horizon-overrun observation)",
-                       "threaded runtime: simulated clock only; the WALL_CLOCK branches of push_phase_shift/push_step (measured delays, step_state.ts adjusted by the step) are not executed by any harness", "schedule adequacy: executed steps of one node carry distinct in-range sequence numbers; "
+                       "threaded runtime: simulated clock, plus one step of the WALL_CLOCK branch of push_step with now() and the step's own ts adjustment as symbols (push_phase_shift's wall-clock branch and throttling are not executed)", "schedule adequacy: executed steps of one node carry distinct in-range sequence numbers; "
                        "the supervisor's seq equals the partition index", "user step function deterministic (UF of its arguments)"]
     obs = pmap("props.c13", "worker_compiled", cfgs, rep.tier)
     import rex.asynchronous as A
@@ -502,6 +559,7 @@ def run(rep):
     # scenario of C04 compares them with the values the law used for that very step; its "recorded ..." clauses are record-faithfulness clauses
     tl = pmap("props.c04", "worker", [dict(rate=10, scheduling=sch, advance=False, n_blocking=nb, n_nonblocking=0, nticks=3) for sch in ("frequency", "phase") for nb in (0, 1)], rep.tier)
     obs += [o for o in tl if "recorded" in o.get("name", "") or o.get("verdict") == "error"]
+    obs += pmap("props.c13", "worker_wallclock", [dict(adjust=False), dict(adjust=True)], rep.tier)
     rep.add_all(obs)
 
 
